@@ -227,7 +227,7 @@ def generate(rng, prop, tier):
         if sc['tkind'] in ('sq', 'sqdiff'):
             sc['r'] = rng.randint(1, 2)
     elif mode == 'steer_square':
-        sc['tkind'] = rng.choice(['normal', 'normal', 'zeros', 'scaled', 'nearorth', 'nearorth', 'overranked', 'overranked', 'sumdup', 'sumdup'])
+        sc['tkind'] = rng.choice(['normal', 'normal', 'zeros', 'scaled', 'nearorth', 'nearorth', 'overranked', 'overranked', 'sumdup', 'sumdup', 'rareslice', 'rareslice'])
         sc['prehistory'] = rng.random() < 0.3
     elif mode == 'adversarial':
         sc['fn'] = rng.choice(['sample', 'sample', 'sample_square', 'sample_square_unique', 'sample_square_unique', 'sample_lhs', 'sample_lhs',
@@ -261,6 +261,13 @@ def generate(rng, prop, tier):
 def build_tensor(sc):
     n, r, kind = sc['n'], sc['r'], sc['tkind']
     g = gen(sc['tseed'] + 1)
+    if kind == 'rareslice':
+        # one slice carries a tiny share (1e-12 .. 1e-20 after squaring) of the total weight
+        Y = make_tt(n, r, sc['tseed'], dist='normal')
+        k = int(g.integers(0, len(n)))
+        if n[k] > 1:
+            Y[k][:, int(g.integers(0, n[k])), :] *= 10.0 ** float(-g.integers(6, 11))
+        return Y
     if kind == 'sumdup':
         # A + (B + B) without rounding: block cores with exactly repeated (linearly dependent) rows / columns
         def tt_add(P, Q):
@@ -414,6 +421,7 @@ def steer(sc, fn):
     prob = np.ones(N)
     term = [None] * N            # step at which the path met a zero cell
     offered = np.zeros(N)        # path probability the sampler offered for that zero cell
+    cond = np.full((N, d), np.nan)   # the conditional probability used at each step of each path
     actual = np.zeros((N, d), dtype=int)
     state = {'step': 0, 's': 0}
     T_ = tt_full(Y)
@@ -442,6 +450,7 @@ def steer(sc, fn):
                     out[s] = best(p)
                 else:
                     prob[s] *= ps
+                    cond[s, 0] = ps
             state['step'] = 1
             state['s'] = 0
             actual[:, 0] = out
@@ -459,6 +468,7 @@ def steer(sc, fn):
                 out = best(p)
             else:
                 prob[s] *= ps
+                cond[s, j] = ps
         else:
             out = best(p)
         actual[s, j] = out
@@ -473,6 +483,7 @@ def steer(sc, fn):
         res = teneva.sample(Y, N, seed=sg, unsert=sc['unsert'])
     else:
         res = teneva.sample_square(Y, N, unique=False, seed=sg)
+    sg.cond = cond
     return Y, multi, res, prob, term, offered, actual, sg
 
 
@@ -537,6 +548,28 @@ def execute_steer(sc):
                               '(allowed: %.3e, unsert=%g)' % (fn, list(mi[:j + 1]), float(W[mi[:j + 1]].sum()), tot, offered[s], allowed, u)))
                 break
             continue
+        # every single conditional of the chain (a rare prefix has a tiny path probability, but its conditionals are O(1))
+        bad_step = None
+        for j in range(1, len(mi)):
+            cj = sg.cond[s, j]
+            wp = float(W[mi[:j]].sum())
+            wj = float(W[mi[:j + 1]].sum())
+            if not np.isfinite(cj) or wp <= 0:
+                continue
+            tc = wj / wp
+            kap = max(float(Wabs[mi[:j]].sum()) / wp, float(Wabs[mi[:j + 1]].sum()) / max(wj, 1e-300))
+            # absolute rounding of the representation the sampler works with: relative to the prefix weight for `sample`, relative to the
+            # prefix amplitude (square root of its weight) for the squared sampler, which carries amplitudes
+            amp = (Wabs_tot / wp) if fn == 'sample' else float(np.sqrt(Wabs_tot / wp))
+            if abs(cj - tc) > 1e-12 + 1e-9 * tc + 1e4 * 2.2e-16 * kap * max(tc, 1e-300) + 1e4 * 2.2e-16 * float(Wabs[mi[:j + 1]].sum()) / wp \
+                    + 1e3 * 2.2e-16 * amp:
+                bad_step = (j, cj, tc)
+                break
+        if bad_step is not None:
+            V.append(viol('probability', '%s: after the prefix %s the index %d of mode %d is drawn with conditional probability %.12e but the tensor defines %.12e '
+                          '(prefix weight %.3e of a total of %.3e)' % (fn, list(mi[:bad_step[0]]), mi[bad_step[0]], bad_step[0], bad_step[1], bad_step[2],
+                                                                    float(W[mi[:bad_step[0]]].sum()), tot)))
+            break
         truth = (max(w0[mi[0]] + u, 0.0) / den0) * (float(W[mi]) / float(w0[mi[0]])) if fn == 'sample' else float(W[mi]) / tot
         err = abs(prob[s] - truth)
         worst = max(worst, err)
